@@ -22,7 +22,7 @@ type c17Case struct {
 // the contract: scheme://host[:port] then nothing, /path or ?query, then an
 // optional #fragment (never directly after the host/port); host is a domain
 // name without empty labels or an IPv4 literal; no userinfo.
-var c17Contract = regexp.MustCompile(`^[a-zA-Z][a-zA-Z0-9+.-]*://([A-Za-z0-9_-]+(\.[A-Za-z0-9_-]+)*)(:[0-9]{1,5})?((/|\?)[ -"$-~]*(#[ -~]*)?)?$`)
+var c17Contract = regexp.MustCompile(`^[a-zA-Z][a-zA-Z0-9+.-]*://([A-Za-z0-9_-]+(\.[A-Za-z0-9_-]+)*)(:[0-9]{1,5})?((/|\?)[ -"$-~\x{80}-\x{10FFFF}]*(#[ -~]*)?)?$`)
 
 func c17InContract(u string) bool {
 	if u == "" {
@@ -95,8 +95,8 @@ func checkC17(c c17Case, rec *Rec) *Violation {
 	if r.URL != capLen(c.URL) || r.SourceURL != capLen(c.Src) {
 		return viol(id, "C17:url-cap", "URL/SourceURL not the 4096-byte prefix: len(url)=%d -> %d, len(src)=%d -> %d", len(c.URL), len(r.URL), len(c.Src), len(r.SourceURL))
 	}
-	if r.URLLowerCase != asciiLower(r.URL) {
-		return viol(id, "C17:lower-case", "URLLowerCase is not the ASCII lower-casing of URL %q", r.URL)
+	if r.URLLowerCase != strings.ToLower(r.URL) {
+		return viol(id, "C17:lower-case", "URLLowerCase is not the lower-casing of the (capped) URL %q", clip(r.URL))
 	}
 	// when the cap cuts inside the host the comparison is with the parse of the capped text
 	capped, err := url.Parse(r.URL)
@@ -152,7 +152,26 @@ var c17Labels = []string{"example", "google", "www", "a", "b", "x-y", "cdn1", "s
 var c17Suffixes = []string{"com", "org", "net", "co.uk", "uk", "ck", "www.ck", "kobe.jp", "city.kobe.jp", "github.io", "blogspot.com", "local", "test", "jp", "com.au", "s3.amazonaws.com", "appspot.com", "xn--p1ai", "COM"}
 
 func genC17Host(t *rapid.T) string {
-	switch rapid.IntRange(0, 9).Draw(t, "hostkind") {
+	switch rapid.IntRange(0, 11).Draw(t, "hostkind") {
+	case 10:
+		// host names around the 253-byte limit
+		n := pick(t, "hostlen", []int{250, 252, 253, 254, 255})
+		var sb strings.Builder
+		for sb.Len() < n-4 {
+			k := n - 4 - sb.Len()
+			if k > 40 {
+				k = 40
+			}
+			sb.WriteString(strings.Repeat("a", k-1))
+			sb.WriteString(".")
+		}
+		h := sb.String() + "com"
+		for len(h) < n {
+			h = "b" + h
+		}
+		return h
+	case 11:
+		return pick(t, "zhost", []string{"adZone.example.org", "Zz.example.com", "ZONE.net"})
 	case 0:
 		return pick(t, "ipv4", []string{"1.2.3.4", "127.0.0.1", "10.0.0.1", "255.255.255.255", "1.2.3"})
 	case 1:
@@ -182,15 +201,16 @@ func genC17URL(t *rapid.T, long bool) string {
 	}
 	switch rapid.IntRange(0, 3).Draw(t, "rest") {
 	case 1, 2:
-		sb.WriteString("/" + pick(t, "path", []string{"", "a/b.js", "a//b", "x:y", "p?q=1&r=http://other.example/", "a%20b", "~u/;p=1", "index.html", "a/@b", "A/B"}))
+		sb.WriteString("/" + pick(t, "path", []string{"", "a/b.js", "a//b", "x:y", "p?q=1&r=http://other.example/", "a%20b", "~u/;p=1", "index.html", "a/@b", "A/B", "adZone.js", "Zz", "\u212aelvin", "caf\u00c9"}))
 	case 3:
 		sb.WriteString("?" + pick(t, "query", []string{"", "q=1", "u=http://other.example//x", "a:b", "x/y?z"}))
 	}
 	if sb.Len() > 0 && strings.ContainsAny(sb.String()[strings.Index(sb.String(), "://")+3:], "/?") {
 		if long {
 			target := pick(t, "long-len", []int{4000, 4090, 4096, 4097, 5000})
+			filler := pick(t, "long-filler", []string{"abcdefghij", "ABCDEFGHIZ", "abc\u212adefg", "\u00e9\u00c9xyz", "Z"})
 			for sb.Len() < target {
-				sb.WriteString("abcdefghij")
+				sb.WriteString(filler)
 			}
 		}
 		if chance(t, "fragment", 4) {
